@@ -94,8 +94,35 @@ func c04Spell(r *RNG, s string) string {
 	return b.String()
 }
 
+// harmless strings that multiplicative string hashes (h*31+c, h*33+c, ...) map to the hash of a
+// dangerous scheme: two neighbouring bytes changed by +1 / -m and -1 / +m.  A cache or table
+// keyed by such a hash answers for the dangerous URL what it learnt from the harmless one.
+func hashNeighbours(s string) []string {
+	var out []string
+	for _, m := range []int{31, 33, 37} {
+		for i := 0; i+1 < len(s) && i < 12; i++ {
+			for _, d := range []int{1, -1} {
+				a, b := int(s[i])+d, int(s[i+1])-d*m
+				if a > 0x20 && a < 0x7f && b > 0x20 && b < 0x7f && a != '<' && a != '>' && b != '<' && b != '>' && a != '(' && b != '(' && a != ')' && b != ')' && a != '\\' && b != '\\' && a != '&' && b != '&' {
+					out = append(out, s[:i]+string([]byte{byte(a), byte(b)})+s[i+2:])
+				}
+			}
+		}
+	}
+	return out
+}
+
+var c04Dangerous = []string{"javascript:alert(1)", "vbscript:msgbox(1)", "file:///etc/passwd", "data:text/html,<script>x</script>", "JAVASCRIPT:alert(1)", "data:,x"}
+
 func c04Targeted(r *RNG, n int) []string {
 	var out []string
+	// a harmless hash neighbour first, the dangerous URL after it: in one document, and in
+	// documents of their own (in this order)
+	for _, dg := range c04Dangerous {
+		for _, nb := range hashNeighbours(dg) {
+			out = append(out, "[a]("+nb+") [b]("+dg+")", "<"+nb+">", "[c]("+dg+")", "![i]("+nb+")\n\n![j]("+dg+")")
+		}
+	}
 	pre := []string{"", "", "", " ", "&#32;", "&#1;", "\\ ", "&nbsp;", "&Tab;", "%20", "\x01"}
 	for i := 0; i < n; i++ {
 		u := r.PickS(pre) + c04Spell(r, r.PickS(c04Schemes))
@@ -133,6 +160,12 @@ func runC04(c *Ctx) {
 	treeEvery = 40
 	for _, sch := range c04Schemes {
 		htmlWriterCases(c, []byte(sch))
+	}
+	for _, dg := range c04Dangerous {
+		for _, nb := range hashNeighbours(dg) {
+			htmlWriterCases(c, []byte(nb))
+			htmlWriterCases(c, []byte(dg))
+		}
 	}
 	for i := 0; i < n; i++ {
 		htmlWriterCases(c, []byte(c.R.PickS([]string{"", " ", "&#32;", "\\ "})+c04Spell(c.R, c.R.PickS(c04Schemes))))
